@@ -36,6 +36,7 @@ pub(crate) struct ConnRec {
     pub(crate) written: u64,
     pub(crate) q_dropped: u64,
     pub(crate) pending_written: u64,
+    pub(crate) q_pending: u64,
     pub(crate) cur: u8,
     pub(crate) quit: bool,
     pub(crate) ended: bool,
@@ -161,12 +162,22 @@ pub(crate) fn before_flush(conn_state: &ConnState) {
     }
 }
 
+// a queued line was moved to the output buffer outside the queue arm of the select
+pub(crate) fn drained(conn_state: &ConnState) {
+    let mut reg = REG.lock().unwrap();
+    if let Some(rec) = reg.conns.get_mut(&conn_state.verif_key) {
+        rec.q_pending += 1;
+    }
+}
+
 // the iteration's output is flushed to the socket
 pub(crate) fn flushed(conn_state: &ConnState) {
     let mut reg = REG.lock().unwrap();
     if let Some(rec) = reg.conns.get_mut(&conn_state.verif_key) {
         rec.written += rec.pending_written;
         rec.pending_written = 0;
+        rec.q_done += rec.q_pending;
+        rec.q_pending = 0;
         match rec.cur {
             1 => rec.q_done += 1,
             2 => rec.pings_done += 1,
